@@ -13,6 +13,7 @@
    spells out), `inner.initialize()` is a parameter.
    Type invariants used as hypotheses (facts of the Rust types, not of the data): a `u32` field is below
    2^32 (`wf`), an `i64` seek offset lies in [-2^63, 2^63). *)
+From MLA Require Import Limit.
 From MLA Require Import Base Stream CompLayer.
 From MLAGen Require Src3c.
 From Coq Require Import ZifyBool ZifyNat ZifyN.
@@ -20,6 +21,7 @@ Open Scope N_scope.
 
 Section Tie.
   Variables BLOCK LIMIT : N.
+  Local Hint Extern 0 Limit => exact LIMIT : typeclass_instances.
   Variable dec : bytes -> bytes.
   Variable S : Stream.
   Variable inner_init : st S -> st S * res unit.
